@@ -10,6 +10,7 @@ import (
 	"reflect"
 	"sort"
 	"strconv"
+	"strings"
 	"sync"
 	"time"
 	"unsafe"
@@ -20,12 +21,15 @@ import (
 	"github.com/Trendyol/go-dcp/helpers"
 	"github.com/Trendyol/go-dcp/logger"
 	"github.com/Trendyol/go-dcp/membership"
+	"github.com/Trendyol/go-dcp/metric"
 	"github.com/Trendyol/go-dcp/models"
 	"github.com/Trendyol/go-dcp/stream"
 	"github.com/Trendyol/go-dcp/vhook"
 	"github.com/Trendyol/go-dcp/wrapper"
 	"github.com/asaskevich/EventBus"
 	"github.com/couchbase/gocbcore/v10"
+	"github.com/prometheus/client_golang/prometheus"
+	dto "github.com/prometheus/client_model/go"
 	"github.com/sirupsen/logrus"
 
 	"verifharness/sched"
@@ -166,11 +170,12 @@ func (c *Client) GetVBucketSeqNos(bool) (*wrapper.ConcurrentSwissMap[uint16, uin
 	}
 	c.r.W.mu.Unlock()
 	latest := c.r.Cfg.Checkpoint.AutoReset == "latest"
+	scrape := c.r.S.Thread() == "scr" // the metric collector asks, not checkpoint.Load
 	if err, ok := v.(error); ok && err != nil {
-		c.r.S.Emit(Ev{"ev": "SeqNos", "ok": false, "high": hi, "latest": latest, "partial": c.r.Partial})
+		c.r.S.Emit(Ev{"ev": "SeqNos", "ok": false, "high": hi, "latest": latest, "partial": c.r.Partial, "scrape": scrape})
 		return nil, err
 	}
-	c.r.S.Emit(Ev{"ev": "SeqNos", "ok": true, "high": hi, "latest": latest, "partial": c.r.Partial})
+	c.r.S.Emit(Ev{"ev": "SeqNos", "ok": true, "high": hi, "latest": latest, "partial": c.r.Partial, "scrape": scrape})
 	return m, nil
 }
 
@@ -557,6 +562,83 @@ func Boot(w *World, opt Options) *Rig {
 }
 
 var ErrInjected = errors.New("injected failure")
+
+// Scrape runs the real metric collector (metric.NewMetricCollector(...).Collect) and returns what it exposes as the
+// Scrape event of the specification.
+func (r *Rig) Scrape() Ev {
+	st := r.Stream()
+	_, vd, _, _ := dcp.VerifParts(r.Dcp)
+	col := metric.NewMetricCollector(r.Client, st, vd)
+	ch := make(chan prometheus.Metric, 4096)
+	col.Collect(ch)
+	close(ch)
+	n := r.W.NVB
+	pos := make([][3]int64, n)
+	lag := make([]int64, n)
+	cnt := make([][3]int64, n)
+	for i := range pos {
+		pos[i] = [3]int64{-1, -1, -1}
+	}
+	ev := Ev{"ev": "Scrape", "closed": true}
+	count := 0
+	for m := range ch {
+		count++
+		var d dto.Metric
+		if m.Write(&d) != nil {
+			continue
+		}
+		name := m.Desc().String()
+		val := 0.0
+		if d.Gauge != nil {
+			val = d.GetGauge().GetValue()
+		} else if d.Counter != nil {
+			val = d.GetCounter().GetValue()
+		}
+		vb := -1
+		for _, l := range d.Label {
+			if l.GetName() == "vbId" {
+				vb, _ = strconv.Atoi(l.GetValue())
+			}
+		}
+		has := func(s string) bool { return strings.Contains(name, "fqName: \""+helpers.Name+"_"+s+"\"") }
+		switch {
+		case has("seq_no_current") && vb >= 0 && vb < n:
+			pos[vb][0] = int64(val)
+		case has("start_seq_no_current") && vb >= 0 && vb < n:
+			pos[vb][1] = int64(val)
+		case has("end_seq_no_current") && vb >= 0 && vb < n:
+			pos[vb][2] = int64(val)
+		case has("lag_current") && vb >= 0 && vb < n:
+			lag[vb] = int64(val)
+		case has("total_lag_current"):
+			ev["total"] = int64(val)
+		case has("mutation_total") && vb >= 0 && vb < n:
+			cnt[vb][0] = int64(val)
+		case has("deletion_total") && vb >= 0 && vb < n:
+			cnt[vb][1] = int64(val)
+		case has("expiration_total") && vb >= 0 && vb < n:
+			cnt[vb][2] = int64(val)
+		case has("active_stream_current"):
+			ev["active"] = int64(val)
+		case has("rebalance_current"):
+			ev["rebalances"] = int64(val)
+		case has("total_members_current"):
+			ev["totalm"] = int64(val)
+		case has("member_number_current"):
+			ev["member"] = int64(val)
+		case has("vbucket_range_start_current"):
+			ev["rlo"] = int64(val) + 1
+		case has("vbucket_range_end_current"):
+			ev["rhi"] = int64(val) + 1
+		}
+	}
+	if count == 0 {
+		return ev
+	}
+	ev["closed"] = false
+	ev["pos"], ev["lag"], ev["cnt"] = pos, lag, cnt
+	return ev
+}
 
 // Stream is the stream object of the dcp (nil before Start created it).
 func (r *Rig) Stream() stream.Stream {
